@@ -430,72 +430,15 @@ Section B4.
         apply (IH es_r' (S k) _ ens); auto.
   Qed.
 
-  (* ---- local: the CB3 tag and the extra entries *)
-  Lemma NoB_tag_local Exc en ns i e os :
-    NoB Exc (tag_local_init en ns i e os) -> NoB (exc_local Exc en (firstn i ns)) os.
+  (* ---- local: all the initialisers are visited in the environment of the statement; their class tags (CB1) only
+     add to what the plain occurrences carry *)
+  Lemma Le_local_inits en ns (f : exp -> list socc) : forall es k,
+    Le (flat_map f es)
+       (concat (index_map (fun i eo => tag_local_init en ns i (fst eo) (snd eo)) k (map (fun e => (e, f e)) es))).
   Proof.
-    intros H s Hs Hn Hd.
-    set (c1 := fun o => outer_use en o && name_in (s_name o) ns
-                        && negb (Nat.eqb (count_name (s_name o) ns) 1 && beq_bytes (nth i ns []) (s_name o)
-                                 && match ref_of_exp e with RNone => false | _ => true end)).
-    set (s1 := if c1 s then add_tag CB1 s else s).
-    set (c3 := fun o => outer_use en o && name_in (s_name o) (firstn i ns)).
-    set (s3 := if c3 s1 then add_tag CB3 s1 else s1).
-    assert (Hin : In s3 (tag_local_init en ns i e os)).
-    { unfold tag_local_init, tag_if. apply in_map_iff. exists s1. split; [reflexivity|].
-      apply in_map_iff. exists s. split; [reflexivity|exact Hs]. }
-    assert (Hf1 : s_name s1 = s_name s /\ s_bind s1 = s_bind s /\ s_role s1 = s_role s /\
-                  forall t, has_tag t s = true -> has_tag t s1 = true).
-    { unfold s1. destruct (c1 s); repeat split; auto. intros t Ht. rewrite has_tag_add, Ht. apply orb_true_r. }
-    destruct Hf1 as [N1 [B1 [R1 T1]]].
-    assert (Hf3 : s_name s3 = s_name s /\ s_bind s3 = s_bind s /\ s_role s3 = s_role s /\
-                  forall t, has_tag t s = true -> has_tag t s3 = true).
-    { unfold s3. destruct (c3 s1); repeat split; auto; try congruence.
-      intros t Ht. rewrite has_tag_add, (T1 t Ht). apply orb_true_r. }
-    destruct Hf3 as [N3 [B3 [R3 T3]]].
-    destruct (H s3 Hin ltac:(congruence) ltac:(congruence)) as [H4 [H3 Hx]]. repeat split.
-    - destruct (has_tag CB4 s) eqn:E; [rewrite (T3 _ E) in H4; discriminate|reflexivity].
-    - destruct (has_tag CB3 s) eqn:E; [rewrite (T3 _ E) in H3; discriminate|reflexivity].
-    - intros [Hex|[Hni Hb]]; [rewrite B3 in Hx; contradiction|].
-      (* then the occurrence would have been tagged CB3 *)
-      assert (Hc3 : c3 s1 = true).
-      { unfold c3, outer_use. rewrite N1, B1, R1, Hn, Hd, Hb, binding_eqb_refl, Hni. reflexivity. }
-      unfold s3 in H3. rewrite Hc3 in H3. cbn in H3. discriminate.
-  Qed.
-
-  Lemma local_simc flv slv reg en Exc seg rest ns es :
-    EQ Exc (concat (seg :: rest)) en ->
-    Forall CEc es -> forallb frag_exp es = true -> forallb tb_shp_exp es = true ->
-    (forall k e, nth_error es k = Some e -> NoB (exc_local Exc en (firstn k ns)) (b_exp flv slv reg e en)) ->
-    forall es_r ns_r ls_r earlier done st k,
-      ns = earlier ++ ns_r -> length earlier = k -> es_r = skipn k es ->
-      (forall n, efind done n <> None -> name_in n earlier = true) ->
-      FRS st ((done ++ seg) :: rest) ->
-      cl_local_loop (map (fun e => (e, tr_exp flv e, cl1_exp nm flv e)) es_r) (combine ns_r ls_r) st = true ->
-      cl_local_loop (map (fun e => (e, tr_exp flv e, cl_exp nm flv e)) es_r) (combine ns_r ls_r) st = true.
-  Proof.
-    intros Heq He Hfe Hse Hes. rewrite forallb_forall in Hfe, Hse. rewrite Forall_forall in He.
-    induction es_r as [|e es' IH]; intros ns_r ls_r earlier done st k Hns Hk Eer Hdone Hf Hc; [reflexivity|].
-    assert (Hek : nth_error es k = Some e /\ skipn (S k) es = es') by (apply skipn_cons_nth; symmetry; exact Eer).
-    destruct Hek as [Hek1 Hek2]. pose proof (nth_error_In _ _ Hek1) as Hin.
-    cbn [map cl_local_loop] in *. apply andb_true_iff in Hc. destruct Hc as [Hc1 Hc2].
-    assert (Heq' : EQ (exc_local Exc en earlier) (concat ((done ++ seg) :: rest)) en).
-    { cbn [concat]. rewrite <- app_assoc. apply EQ_extras; [exact Hdone|exact Heq]. }
-    assert (Hfirst : firstn k ns = earlier).
-    { rewrite Hns, <- Hk. rewrite firstn_app, Nat.sub_diag, firstn_all. cbn. apply app_nil_r. }
-    pose proof (Hes k e Hek1) as Hnb. rewrite Hfirst in Hnb.
-    rewrite (He e Hin (Hfe e Hin) (Hse e Hin) flv slv reg st _ en _ Hf ltac:(discriminate) Heq' Hnb Hc1). cbn [andb].
-    destruct ns_r as [|n ns']; [reflexivity|]. destruct ls_r as [|l ls']; [reflexivity|]. cbn [combine] in *.
-    destruct (sim_exp e flv slv reg (Hse e Hin) st _ en _ Hf ltac:(discriminate) Heq') as [news [cs [_ [Hf1 _]]]].
-    assert (Hv : VR (mkV n l (ref_of_exp e) (refer_empty n e)) ((n, l), refer_empty n e)) by (repeat split; cbn; auto).
-    pose proof (FRS_add _ _ _ _ _ Hv Hf1) as Hf2.
-    apply (IH ns' ls' (earlier ++ [n]) (((n, l), refer_empty n e) :: done) _ (S k)); auto.
-    - rewrite <- app_assoc. exact Hns.
-    - rewrite app_length, Hk. cbn. lia.
-    - intros m Hm. rewrite efind_cons in Hm. cbn [fst snd] in Hm. rewrite name_in_app.
-      destruct (beq_bytes n m) eqn:Enm.
-      + apply beq_bytes_eq in Enm. subst m. cbn. rewrite beq_refl. apply orb_true_r.
-      + rewrite (Hdone m Hm). reflexivity.
+    induction es as [|e r IH]; intros k; [apply Le_refl|].
+    cbn [map index_map concat flat_map fst snd]. apply Le_app_both; [|apply IH].
+    unfold tag_local_init. apply Le_tag_if.
   Qed.
 
   (* ------------------------------------------------------------------ the induction *)
@@ -620,12 +563,17 @@ Section B4.
       + discriminate.
     - (* SLocal *) intros ns ls ats es l IHe Hf Hs flv slv reg. cbn [frag_stat tb_shp_stat] in *. bs Hf. bs Hs.
       intros st seg rest en Exc Hfr Heq Hnb Hc. cbn [b_stat snd] in Hnb. cbn [cl1_stat cl_stat] in *.
-      apply (local_simc flv slv reg en Exc seg rest ns es Heq IHe ltac:(assumption) ltac:(assumption))
-        with (earlier := []) (done := []) (k := O); auto.
-      intros k e Hk. apply (NoB_tag_local Exc en ns k e).
-        eapply NoB_Le; [|exact Hnb]. eapply Le_trans; [|apply Le_app_l].
-        apply (Le_concat_index_in (fun i eo => tag_local_init en ns i (fst eo) (snd eo)) _ O k (e, b_exp flv slv reg e en)).
-        rewrite nth_error_map, Hk. reflexivity.
+      assert (Hlc : (length es <= length (combine ns ls))%nat).
+      { match goal with H : Nat.eqb (length ns) (length ls) = true |- _ => apply Nat.eqb_eq in H; rename H into Hl1 end.
+        match goal with H : Nat.leb (length es) (length ns) = true |- _ => apply Nat.leb_le in H; rename H into Hl2 end.
+        rewrite combine_length. lia. }
+      pose proof (cl_local_loop_shape (fun e => tr_exp flv e) (fun e => cl1_exp nm flv e) es (combine ns ls) st Hlc) as E1.
+      pose proof (cl_local_loop_shape (fun e => tr_exp flv e) (fun e => cl_exp nm flv e) es (combine ns ls) st Hlc) as E2.
+      cbv beta in E1, E2. unfold tT, tC in E1, E2. rewrite E1 in Hc. rewrite E2.
+      apply (exps_simc flv slv reg es IHe ltac:(assumption) ltac:(assumption) st (seg :: rest) en Exc Hfr ltac:(discriminate) Heq);
+        [|exact Hc].
+      eapply NoB_Le; [|exact Hnb]. eapply Le_trans; [|apply Le_app_l].
+      apply (Le_local_inits en ns (fun e => b_exp flv slv reg e en) es O).
     - (* SLocalFunc *) intros n nl f l IHf Hf Hs flv slv reg. cbn [frag_stat tb_shp_stat] in *.
       apply andb_true_iff in Hf. destruct Hf as [_ Hff]. destruct f; try discriminate Hff.
       assert (Hv : VR (mkV n nl (ref_of_exp (EFunc cls fname pars parlocs b l0 vararg colon)) false) ((n, nl), false))
